@@ -59,6 +59,7 @@ func HarnessC08Run() {
 		}
 		wg.Wait()
 		want, werr := Run(c.prog, env)
+		vfReach("c08.ran")
 		for i := range outs {
 			vfAssert((errs[i] == nil) == (werr == nil), "c08.concurrent-run-returns-what-it-returns-alone")
 			if errs[i] == nil && werr == nil {
@@ -107,6 +108,7 @@ func HarnessC08Compile() {
 			}()
 		}
 		wg.Wait()
+		vfReach("c08.compiled")
 		return
 	}
 	vfSharedBegin(sample, ops)
